@@ -272,16 +272,17 @@ def _address(ctx, repo, tm):
             ok = True
     ctx.decide(ok and len(famvars) == 1, "R-TABLE/address-layout", construct, at.where(fn), "data = family + packed address",
                "the stored value is not `family code + packed address` (family first)", key="layout")
-    # bytes path compares the first len(family) bytes with the same constants
-    cmpc = set()
-    for n in ast.walk(fn):
-        if isinstance(n, ast.Compare) and ast.unparse(n.left).endswith("[:2]"):
-            v = repo.fold(tm, n.comparators[0])
-            if isinstance(v, bytes):
-                cmpc.add(v)
-    ctx.decide(cmpc == {b"\x00\x01", b"\x00\x02"}, "R-TABLE/address-family", construct, at.where(fn),
+    # bytes path: per family code (one run of the term interpreter each), the bytes after the 2 family octets are
+    # validated by the class of that family; an unknown family is stored as given
+    from ._address import bytes_cases, CODES
+    cases = bytes_cases(repo, at, fn)
+    got = {c.hex(): (sorted(r["validators"] or []) if r else None) for c, r in cases.items()}
+    ok = all(r is not None and r["accepting"] > 0 for r in cases.values()) and \
+        all((cases[c]["validators"] or set()) == ({cls} if cls else set()) for c, cls in CODES.items() if cases[c])
+    ctx.decide(ok, "R-TABLE/address-family", construct, at.where(fn),
                "bytes path recognises families 0001 and 0002 on data[:2]",
-               f"bytes path compares data[:2] with {sorted(c.hex() for c in cmpc)}", key="bytes_family")
+               f"bytes path validates data[2:] per family code as {got}; expected 0001 -> IPv4Address, 0002 -> IPv6Address, "
+               f"other -> none", key="bytes_family")
     for name in ("is_ipv4", "is_ipv6", "get_ip_address"):
         f = ctx.need(at.methods.get(name), f"AddressType.{name}")
         lows = []
@@ -325,63 +326,71 @@ def _time(ctx, repo, tm):
     tt = ctx.need(repo.cls("bromelia.types.TimeType"), "TimeType")
     fn = ctx.need(tt.methods.get("__init__"), "TimeType.__init__")
     construct = f"{tt.qual}.__init__"
-    epoch = None
-    refvar = None
-    for n in ast.walk(fn):
-        if isinstance(n, ast.Assign) and isinstance(n.value, ast.Call) and call_name(n.value).endswith("datetime") \
-                and isinstance(n.targets[0], ast.Name):
-            vals = [repo.fold(tm, a) for a in n.value.args]
-            epoch = tuple(vals)
-            refvar = n.targets[0].id
-    ok = epoch is not None and len(epoch) >= 3 and epoch[:3] == (1900, 1, 1) and all(v == 0 for v in epoch[3:])
-    ctx.decide(ok, "R-TABLE/time-epoch", construct, tt.where(fn), "epoch is 1900-01-01T00:00:00",
-               f"epoch is {epoch}, RFC 6733 Time counts seconds since 1900-01-01 00:00:00", key="epoch")
-    # diff = data - ref
-    diffvar = None
-    for n in ast.walk(fn):
-        if isinstance(n, ast.Assign) and isinstance(n.value, ast.BinOp) and isinstance(n.value.op, ast.Sub) \
-                and isinstance(n.value.right, ast.Name) and n.value.right.id == refvar and isinstance(n.targets[0], ast.Name):
-            diffvar = n.targets[0].id
-    if diffvar is None:
-        ctx.undecided("R-TABLE/time-scale", construct, tt.where(fn), "difference to the epoch not recognised", key="diff")
+    # on terms (bsa.sym): the value handed to the base constructor on the datetime path is
+    # H4(c0 + cd*DIFF.days + cs*DIFF.seconds) with DIFF = data - datetime(1900,1,1,0,0,0)   (or int(DIFF.total_seconds()))
+    from .. import sym
+    from ..astutil import strip_doc
+    params = [a.arg for a in fn.args.args if a.arg != "self"]
+    DATA = sym.S(params[0])
+    paths = sym.Interp(fold=lambda e: repo.fold(tm, e), log_calls=True).run(strip_doc(fn.body), sym.PathState({params[0]: DATA}, [], []))
+    dt_paths = [p_ for p_ in paths if any(tv and isinstance(c, tuple) and c[0] == "call" and c[1] == ("name", "isinstance")
+                                          and c[2][0] == DATA and "datetime" in sym.show(c[2][1]) for c, tv in p_.conds)
+                and p_.term != "raise"]
+    if not dt_paths:
+        ctx.undecided("R-TABLE/time-scale", construct, tt.where(fn), "no path for a datetime argument", key="diff")
         return
-    ts = None
-    for n in ast.walk(fn):
-        if isinstance(n, ast.Assign) and isinstance(n.targets[0], ast.Name) and _mentions_attr(n.value, diffvar):
-            ts = n
-    if ts is None:
-        ctx.undecided("R-TABLE/time-scale", construct, tt.where(fn), "seconds expression not recognised", key="scale")
-        return
-    txt = ast.unparse(ts.value)
-    if txt in (f"int({diffvar}.total_seconds())", f"{diffvar}.total_seconds()"):
-        ok = txt.startswith("int(")
-        ctx.decide(ok, "R-TABLE/time-scale", construct, tt.where(ts), "whole seconds via total_seconds()",
-                   "total_seconds() is not truncated to whole seconds", key="scale")
-    else:
-        def ev(days, secs):
-            e = copy.deepcopy(ts.value)
+    for p_ in dt_paths:
+        base_calls = [e[1] for e in p_.effects if e[0] == "ecall" and isinstance(e[1], tuple) and e[1][0] == "call"
+                      and isinstance(e[1][1], tuple) and e[1][1][0] == "attr" and e[1][1][2] == "__init__"]
+        val = None
+        for bc in base_calls:
+            for a_ in bc[2]:
+                if isinstance(a_, tuple) and a_[0] == "call" and a_[1][0] == "name" and repo.helper_width(tm, a_[1][1]):
+                    val = a_
+        if val is None:
+            ctx.undecided("R-WIDTH/time", construct, tt.where(fn), "the encoded timestamp handed to the base constructor not recognised", key="width")
+            continue
+        w = repo.helper_width(tm, val[1][1])
+        ctx.decide(w[0] == 4 and w[1] == "big" and not w[2], "R-WIDTH/time", construct, tt.where(fn),
+                   "timestamp encoded as 4 big-endian unsigned octets",
+                   f"timestamp is not encoded as 4 big-endian unsigned octets ({w})", key="width")
+        ts = val[2][0]
+        # find the difference term: (data - <epoch ctor>)
+        diffs = set()
 
-            class T(ast.NodeTransformer):
-                def visit_Attribute(self, node):
-                    if isinstance(node.value, ast.Name) and node.value.id == diffvar:
-                        if node.attr == "days":
-                            return ast.Constant(value=days)
-                        if node.attr == "seconds":
-                            return ast.Constant(value=secs)
-                    return node
-            return repo.fold(tm, T().visit(e))
-        c0, cd, cs = ev(0, 0), ev(1, 0), ev(0, 1)
-        ok = c0 == 0 and cd == 86400 and cs == 1 and ev(2, 3) == 2 * 86400 + 3
-        ctx.decide(ok, "R-TABLE/time-scale", construct, tt.where(ts), "timestamp = days*86400 + seconds",
-                   f"`{txt}` evaluates to {cd} per day and {cs} per second (offset {c0}); expected 86400 and 1", key="scale")
-    # the timestamp is what gets encoded (4 bytes, C10 clause 8)
-    enc = [n for n in ast.walk(fn) if isinstance(n, ast.Assign) and isinstance(n.value, ast.Call)
-           and isinstance(n.value.func, ast.Name) and repo.helper_width(tm, n.value.func.id)
-           and n.value.args and isinstance(n.value.args[0], ast.Name) and n.value.args[0].id == ts.targets[0].id]
-    w = repo.helper_width(tm, enc[0].value.func.id) if enc else None
-    ctx.decide(bool(enc) and w[0] == 4 and w[1] == "big" and not w[2], "R-WIDTH/time", construct, tt.where(fn),
-               "timestamp encoded as 4 big-endian unsigned octets",
-               f"timestamp is not encoded as 4 big-endian unsigned octets ({w})", key="width")
+        def collect(t):
+            if isinstance(t, tuple):
+                if len(t) == 4 and t[0] == "op" and t[1] == "Sub" and t[2] == DATA:
+                    diffs.add(t)
+                for x in t:
+                    if isinstance(x, tuple):
+                        collect(x)
+        collect(ts)
+        if len(diffs) != 1:
+            ctx.undecided("R-TABLE/time-scale", construct, tt.where(fn), "difference to the epoch not recognised", key="diff")
+            continue
+        DIFF = next(iter(diffs))
+        ep = DIFF[3]
+        epoch = None
+        if isinstance(ep, tuple) and ep[0] == "call" and sym.show(ep[1]).endswith("datetime") and not ep[3]:
+            epoch = tuple(ep[2])
+        ok = epoch is not None and len(epoch) >= 3 and epoch[:3] == (1900, 1, 1) and all(v == 0 for v in epoch[3:])
+        ctx.decide(ok, "R-TABLE/time-epoch", construct, tt.where(fn), "epoch is 1900-01-01T00:00:00",
+                   f"epoch is {sym.show(ep)}, RFC 6733 Time counts seconds since 1900-01-01 00:00:00", key="epoch")
+        DAYS, SECS = ("attr", DIFF, "days"), ("attr", DIFF, "seconds")
+        total = ("call", ("attr", DIFF, "total_seconds"), (), ())
+        if ts == ("call", ("name", "int"), (total,), ()):
+            ctx.hold("R-TABLE/time-scale", construct, tt.where(fn), "whole seconds via int(total_seconds())", key="scale")
+        elif ts == total:
+            ctx.violate("R-TABLE/time-scale", construct, tt.where(fn), "the timestamp is total_seconds() without truncation to whole seconds "
+                        "(a float is handed to the 4-octet packer)", key="scale")
+        else:
+            c0, cd, cs = sym.lin_const(ts), sym.lin_coef(ts, DAYS), sym.lin_coef(ts, SECS)
+            extra = sym.lin_atoms(ts) - {DAYS, SECS}
+            ctx.decide(c0 == 0 and cd == 86400 and cs == 1 and not extra, "R-TABLE/time-scale", construct, tt.where(fn),
+                       "timestamp = days*86400 + seconds",
+                       f"`{sym.show(ts)}` counts {cd} per day and {cs} per second (offset {c0}, other terms {[sym.show(x) for x in extra]}); "
+                       f"expected 86400 and 1", key="scale")
 
 
 def _mentions_attr(e, var):
